@@ -98,6 +98,7 @@ func Profile(name string) Knobs {
 		return k
 	case "guard": // C13
 		k := base
+		k.PSkeleton = 0.15
 		k.PGuard, k.PGuardFail = 0.5, 0.4
 		k.PFail, k.MaxFails = 0.05, 1
 		k.POnce = 0.25
@@ -511,7 +512,28 @@ func skeleton(rng *rand.Rand, profile string) *Prog {
 	if (profile == "deps" || profile == "dedup") && rng.Intn(6) == 0 {
 		which = 6
 	}
+	if profile == "guard" {
+		which = 7
+	}
 	switch which {
+	case 7: // a deduplicated task whose guard (evaluated after its deps) fails while a second referrer is already waiting
+		mk(5)
+		p.Tasks[0].Deps = []*Ref{ref(1), ref(2)}
+		p.Tasks[1].Deps = []*Ref{sref(3)}
+		p.Tasks[1].Entries = probes(1)
+		p.Tasks[2].Entries = append([]*Entry{{Kind: Call, Ref: sref(3)}}, probes(1)...)
+		p.Tasks[3].Run, p.Tasks[3].UsesX = mode, mode == WhenChanged
+		p.Tasks[3].Deps = []*Ref{ref(4)}
+		p.Tasks[3].Guards = []Guard{{Kind: []string{"precondition", "prompt"}[rng.Intn(2)], Pass: false}}
+		p.Tasks[3].Entries = probes(1)
+		p.Tasks[4].Entries = probes(1 + rng.Intn(2))
+		if rng.Intn(2) == 0 {
+			p.Tasks[2].Entries = append([]*Entry{{Kind: DeferCmd}}, p.Tasks[2].Entries...)
+		}
+		p.Roots = []*Ref{ref(0)}
+		p.Conc = []int{0, 0, 2, 3}[rng.Intn(4)]
+		p.Yes = false
+		return p
 	case 6: // two run-once tasks of an included file whose names end alike after a ':'; each is needed by another task
 		mk(5)
 		p.Tasks[3].Name, p.Tasks[4].Name = "ga:w", "gb:w"
